@@ -12,6 +12,10 @@ var Registry = map[string]func(Tier) int{
 	"C01": C01,
 	"C02": C02,
 	"C13": C13,
+	"C03": C03,
+	"C04": C04,
+	"C05": C05,
+	"C11": C11,
 }
 
 // Systems used by `pcheck replay` to re-execute graph replays by name.
